@@ -27,11 +27,14 @@ MX = ["<svg>", "<math>", "<mtext>", "<mi>", "<mglyph>", "<annotation-xml encodin
 tw.THEMES.setdefault("MX", MX)
 # attribute values whose character references are themselves escaped in the source: what the sanitizer judged
 # (the decoded value) must be what the second parse decodes again, under every quoting decision of the serializer
-MXA = ["<a href=", '<a href="', "javascript", ":", "&amp;colon;", "&amp;#58;", "&amp;", "colon;", "x", '">', ">", " ", "'"]
+MXA = ["<a href=", '<a href="', "javascript", ":", "&amp;colon;", "&amp;#58;", "&amp;", "colon;", "x", '">', ">", " ", "'",
+       # allowed attributes whose VALUE contains what would be markup if the serializer left it unquoted
+       '<a title="x onmouseover=1">', '<a title="x><img src=x onerror=1>">', "<a title='x\tstyle=y'>", '<a title="x`onmouseover=1">']
 tw.THEMES.setdefault("MXA", MXA)
 
 IMPLIED = frozenset(["html", "head", "body", "tbody", "colgroup", "tr"])
-SER_OPTS = [{}, {"omit_optional_tags": False, "quote_attr_values": "always"}, {"escape_rcdata": True, "minimize_boolean_attributes": False}]
+SER_OPTS = [{}, {"omit_optional_tags": False, "quote_attr_values": "always"},
+            {"escape_rcdata": True, "minimize_boolean_attributes": False, "quote_attr_values": "spec"}]
 
 
 def allow_configs():
